@@ -11,6 +11,8 @@ REF_SOURCES = {'self.ref_path', 'self.stdout_path', 'self.stderr_path', 'self.re
 
 def check(run):
     p = run.prog
+    from . import gentest_script
+    gentest_script.run_rule(run, p, 'C12')
     mustemit(run, p, 'C12-ONEASSERT')
     roles(run, p)
     order(run, p)
@@ -74,23 +76,58 @@ def roles(run, p):
                           'two never share a source')
     ws = p.method('TestGenerator', 'write_script')
     n = 0
-    for x in p.own_nodes(ws):
-        if isinstance(x, ast.Call) and getattr(x.func, 'id', '') == 'test_def' and len(x.args) >= 4:
-            n += 1
-            actual, ref = x.args[1], x.args[3]
-            aclo = _closure_at(ws, actual)
-            rclo = _closure_at(ws, ref)
-            a_ok = not (aclo & REF_SOURCES) if not isinstance(actual, ast.Constant) else actual.value in ('self.output', 'self.error')
-            r_ok = bool(rclo & REF_SOURCES)
-            stream = x.args[0].value if isinstance(x.args[0], ast.Constant) else None
-            if stream == 'stdout':
-                a_ok = a_ok and isinstance(actual, ast.Constant) and actual.value == 'self.output' and 'self.stdout_path' in rclo
-            if stream == 'stderr':
-                a_ok = a_ok and isinstance(actual, ast.Constant) and actual.value == 'self.error' and 'self.stderr_path' in rclo
-            run.ob('C12-ROLES', 'test_def:%s' % norm(x.args[0])[:20], a_ok and r_ok,
-                   'test %s: actual=%s (from %s), reference=%s (from %s)' % (norm(x.args[0]), norm(actual), sorted(aclo & (REF_SOURCES | {'path'})) or 'the command',
-                                                                            norm(ref), sorted(rclo & REF_SOURCES) or 'NOT the reference store'), fn=ws, node=x)
+    for x, name, actual, aclo, ref, rclo in test_def_sites(p, ws):
+        n += 1
+        a_ok = not (aclo & REF_SOURCES) if not isinstance(actual, ast.Constant) else actual.value in ('self.output', 'self.error')
+        r_ok = bool(rclo & REF_SOURCES)
+        stream = name.value if isinstance(name, ast.Constant) else None
+        if stream == 'stdout':
+            a_ok = a_ok and isinstance(actual, ast.Constant) and actual.value == 'self.output' and 'self.stdout_path' in rclo
+        if stream == 'stderr':
+            a_ok = a_ok and isinstance(actual, ast.Constant) and actual.value == 'self.error' and 'self.stderr_path' in rclo
+        from .c11 import backed
+        backed(run, 'C12-ROLES', 'test_def:%s' % norm(name)[:20], a_ok and r_ok,
+               'test %s: actual=%s (from %s), reference=%s (from %s)' % (norm(name), norm(actual), sorted(aclo & (REF_SOURCES | {'path'})) or 'the command',
+                                                                        norm(ref), sorted(rclo & REF_SOURCES) or 'NOT the reference store'), 'C12-SCRIPT', fn=ws, node=x)
     run.floor('C12-ROLES', n, 4)
+
+
+def test_def_sites(p, ws):
+    """(call in write_script, test name, actual expression, its sources, reference expression, its sources) for every test the
+    generator writes: test_def called directly, or by a helper method of the generator that write_script calls, in which case the
+    helper's parameters stand for the arguments write_script passes."""
+    out = []
+    for x in p.own_nodes(ws):
+        if not isinstance(x, ast.Call):
+            continue
+        if getattr(x.func, 'id', '') == 'test_def':
+            if len(x.args) >= 4:
+                out.append((x, x.args[0], x.args[1], _closure_at(ws, x.args[1]), x.args[3], _closure_at(ws, x.args[3])))
+            continue
+        for h in {t for c, ts, _k in p.calls(ws) if c is x for t, _ctx in ts}:
+            if h.cls is None or h is ws:
+                continue
+            pos = list(h.posparams)[1:]
+            bound = {pos[i]: a for i, a in enumerate(x.args) if i < len(pos)}
+            bound.update({k.arg: k.value for k in x.keywords if k.arg})
+            for c in p.own_nodes(h):
+                if not (isinstance(c, ast.Call) and getattr(c.func, 'id', '') == 'test_def' and len(c.args) >= 4):
+                    continue
+
+                def through(e):
+                    # the expression as write_script sees it, and everything it derives from on both sides of the call
+                    clo = _closure_at(h, e)
+                    for nm in list(clo):
+                        if nm in bound:
+                            clo |= _closure_at(ws, bound[nm])
+                    return (bound[e.id] if isinstance(e, ast.Name) and e.id in bound else e), clo
+                name, _ = through(c.args[0])
+                actual, aclo = through(c.args[1])
+                ref, rclo = through(c.args[3])
+                for e, orig in ((name, c.args[0]), (actual, c.args[1]), (ref, c.args[3])):
+                    e._ctx = ws if e is not orig else h       # the function whose assignments define the names in e
+                out.append((x, name, actual, aclo, ref, rclo))
+    return out
 
 
 def _closure_at(f, e):
